@@ -462,9 +462,13 @@ def gen_nts(rng, ver=None, valid=None):
     # encrypted fields
     sub = []
     for _ in range(rng.choice([0, 0, 0, 1, 2, 3, 9])):
-        k = rng.choice(["placeholder", "placeholder", "unknown", "uid", "cookie"])
+        k = rng.choice(["placeholder", "placeholder", "unknown", "uid", "cookie", "junkcookie"])
         if k == "cookie":
             sub.append("c%d.p.0.%d" % (alg, sess))
+        elif k == "junkcookie":
+            # an NTS cookie field that is shorter (or not) than a fresh cookie, among the encrypted fields:
+            # it may only be replaced by a fresh cookie that is not larger than it (added after a seeded change)
+            sub.append("h" + field(ver, T_COOKIE, rbytes(rng, rng.choice([4, 4, 8, 12, 60, 100, 104, 108]))).hex())
         else:
             sub.append("h" + gen_clear_field(rng, ver, [k]).hex())
     nonce = rng.choice([16, 16, 16, 16, 16, rng.randrange(1, 33), rng.randrange(1, 33), 12, 15, 17, 32, 0])
@@ -535,6 +539,8 @@ def witnesses():
     unk = b"".join(field(4, 0x0999, rbytes(rng, 12)) for _ in range(8))
     res.append(mk("h" + (h4 + unk).hex() + ",c15.p.0.1,a16.1.15.0.0.-"))
     res.append(mk("h" + h4.hex() + ",c15.p.0.1,a16.1.15.0.0.-", policy="D"))                          # NTS deny without uid
+    # a short NTS cookie field among the encrypted fields must not be replaced by a larger fresh cookie (C19)
+    res.append(mk("h" + (h4 + uid).hex() + ",c15.p.0.1,a16.1.15.0.0.h" + field(4, T_COOKIE, rbytes(rng, 4)).hex()))
     h5 = header(rng, 5)
     res.append(mk("h" + (h5 + field(5, T_UID, rbytes(rng, 5)) + field(5, T_DRAFT, DRAFT)).hex() + ",c15.p.0.1,a16.1.15.0.0.-"))  # v5 short uid authenticated: class
     res.append(mk("h" + (h5 + field(5, T_UID, rbytes(rng, 5)) + field(5, T_DRAFT, DRAFT)).hex()))     # v5 plain: fits
